@@ -1,6 +1,7 @@
 """
 This file contains the AquacropModel class that runs the simulation.
 """
+import copy
 import time
 import datetime
 import os
@@ -221,7 +222,9 @@ class AquaCropModel:
         )
 
         # Compute additional variables
-        self._param_struct.CO2 = self.co2_concentration
+        # (the model works on its own copy: the concentration resolved for this run is written into it,
+        # the user's CO2 object keeps its meaning for the next model)
+        self._param_struct.CO2 = copy.deepcopy(self.co2_concentration)
         self._param_struct = compute_variables(
             self._param_struct, self.weather_df, self._clock_struct
         )
